@@ -169,6 +169,16 @@ def encOptVarint : Option Nat → List Nat
   | some v => VarInt.encode v
   | none => []
 
+def encOptStreamId : Option StreamId → List Nat
+  | some s => VarInt.encode s.toVarint
+  | none => []
+
+/-- next-expected-control-packet and the control data length, written only for ack-eliciting datagrams -/
+def encAckFields (nect : Option Nat) (controlDataLen : Nat) : List Nat :=
+  match nect with
+  | some n => VarInt.encode n ++ VarInt.encode controlDataLen
+  | none => []
+
 /-- a tag byte validated against `MIN..=MAX` (`impl_tag_codec!` + `validate`) -/
 def pTagIn (lo hi : Nat) : P Nat := fun b =>
   match pU8 b with
@@ -332,9 +342,7 @@ def encDatagramFixed (i : DatagramIn) : List Nat :=
   [datagramTagOf i] ++ encCreds i.creds ++ [0] ++ beBytes 2 i.sourceControlPort
     ++ (if i.pn.isSome ∨ i.nect.isSome then VarInt.encode (i.pn.getD 0) else [])
     ++ VarInt.encode i.payload.length
-    ++ (match i.nect with
-        | some n => VarInt.encode n ++ VarInt.encode i.controlData.length
-        | none => [])
+    ++ encAckFields i.nect i.controlData.length
     ++ (if i.appHeader.length > 0 then VarInt.encode i.appHeader.length else [])
 
 def encDatagramHeader (i : DatagramIn) : List Nat :=
@@ -432,7 +440,7 @@ def controlTagOf (i : ControlIn) : Nat :=
 
 def encControlFixed (i : ControlIn) : List Nat :=
   [controlTagOf i] ++ encCreds i.creds ++ [0]
-    ++ (match i.streamId with | some s => VarInt.encode s.toVarint | none => [])
+    ++ encOptStreamId i.streamId
     ++ encOptVarint i.sourceQueueId
     ++ VarInt.encode i.pn
     ++ VarInt.encode i.controlData.length
